@@ -154,6 +154,14 @@ def run_cube(c, out):
         err = np.abs(r - inv)[kinv]
         out.check(not err.size or err.max() <= 1e-9 * max(1.0, np.abs(vol).max()), "cube:rotation_without_transpose_not_the_inverse", f"rotation #{c['rot']} box {shape}")
     out.check(np.array_equal(vol, keep), "cube:input_modified", "")
+    # the same angles on a box of another size right afterwards: nothing of the first call may be remembered
+    shape2 = tuple(n_ + 1 + (i_ % 2) for i_, n_ in enumerate(shape))
+    vol2 = np.random.default_rng(c["seed"] + 1).normal(0, 1, shape2)
+    exp2, known2 = permute_exact(vol2, R)
+    ok, r2 = call(out, "rotate:rotation_angles", lambda: cryomap.rotate(vol2, rotation_angles=list(ang)))
+    if ok and r2.shape == shape2:
+        err2 = np.abs(r2 - exp2)[known2]
+        out.check(not err2.size or err2.max() <= 1e-9 * max(1.0, np.abs(vol2).max()), "cube:second_box_size_rotated_about_the_first_boxs_centre", f"boxes {shape} then {shape2}")
 
 
 # ---------------------------------------------------------------------------------------------- (b) blobs
